@@ -787,21 +787,23 @@ def chk_blockencode(rng, tier):
     record_scalar("BlockEncode", {"claim": "adjoint(BlockEncode(A)) = U(A)^dagger", "shape": shape}, "adjoint_dev", float(np.abs(Ma - M.conj().T).max()), 1e-7)
 
 
-def chk_fable(rng, tier):
-    shape = rng.choice([(2, 2), (2, 2), (4, 4), (1, 1), (2, 3), (3, 4), (4, 2)])
+def chk_fable(rng, tier, fixed=None):
+    shape = rng.choice([(2, 2), (2, 2), (4, 4), (2, 3), (3, 4), (4, 2)])
     A = np.array([[rng.uniform(-1, 1) for _ in range(shape[1])] for _ in range(shape[0])])
     if rng.random() < 0.3:
         A[rng.randrange(shape[0])] = 0.0
-    s = max(1, math.ceil(math.log2(max(shape)))) if max(shape) > 1 else 0
-    if max(shape) == 1:
-        s = 0
-    n = max(s, 1) if False else s
+    if rng.random() < 0.2:
+        A = np.round(A * 2) / 2          # structured matrices: many equal entries, hence many vanishing rotation angles
+    if fixed is not None:
+        A = np.array(fixed[0], dtype=float)
+        shape = A.shape
+    s = max(1, math.ceil(math.log2(max(shape))))
     dim = 2 ** s
     nw = 2 * s + 1
-    if s == 0:
-        return None
     wires = labels_for(rng, nw)
     tol = rng.choice([0, 0, 0, 1e-3, 1e-2, 0.05])
+    if fixed is not None:
+        tol = fixed[1]
     op = qp.FABLE(A, wires=wires, tol=tol)
     Ap = np.zeros((dim, dim))
     Ap[:shape[0], :shape[1]] = A
@@ -1190,3 +1192,420 @@ def traces(rng, tier):
             T.append({"kind": "qrom", "route": nm, "c": c, "b": b, "depth": depth, "s": int(round(math.log2(depth))), "data": [[bool(x) for x in r] for r in data],
                       "rows": rows, "triples": triples, "loaded": loaded, "sel_ctrl_is_prefix": sel_ctrl == control[:len(sel_ctrl)]})
     return T
+
+
+# ============================================================================= part B : exact obligations (QSym engine)
+from qsym import Lin, Sym, NotExtractable, set_cfg, CFG
+from qx import (op_matrix_sym, spot_check, mat_to_sym, s_ident, s_mul, s_adj, s_ctrl, s_embed, g_gate, g_mat, g_nats,
+                install_patches, bind_numeric, num_mat)
+from fractions import Fraction as Fr
+
+
+def is_template(o):
+    return type(o).__module__.startswith("pennylane.templates")
+
+
+def sym_gates(ops, wo, rng, depth=0):
+    """fully decompose `ops` (nested templates through their decomposition()) into [(wire idx, Sym matrix)]"""
+    gates = []
+    for o in ops:
+        if o.name in ("Barrier", "Snapshot", "WireCut"):
+            continue
+        if len(o.wires) == 0:      # GlobalPhase without wires
+            S = op_matrix_sym(o)
+            gates.append(([0], [[S[0][0], Sym.of(0)], [Sym.of(0), S[0][0]]]))
+            continue
+        if is_template(o) and depth < 6:
+            try:
+                sub = o.decomposition()
+            except Exception as e:
+                raise NotExtractable(f"{o.name}.decomposition(): {type(e).__name__}: {str(e)[:100]}")
+            gates += sym_gates(sub, wo, rng, depth + 1)
+            continue
+        try:
+            S = op_matrix_sym(o)
+        except NotExtractable:
+            if o.has_decomposition and depth < 6:
+                gates += sym_gates(o.decomposition(), wo, rng, depth + 1)
+                continue
+            raise
+        ok, w = spot_check(o, S, rng)
+        if not ok:
+            raise NotExtractable(f"spot-check of {o.name} failed ({w})")
+        if len(o.wires) > 4 and False:
+            raise NotExtractable("gate too large")
+        gates.append(([wo.index(x) for x in o.wires], S))
+    return gates
+
+
+def lin_t(j=0):
+    return Lin.var(j)
+
+
+def s_const(M):
+    return mat_to_sym(np.asarray(M, dtype=complex))
+
+
+def s_exp_pauli(word, phi):
+    """exp(-i phi P) for a Lin angle phi: cos(phi) I - i sin(phi) P"""
+    P = pauli_word_mat(word)
+    c, s = phi.cos(), phi.sin()
+    d = P.shape[0]
+    mi = Sym.of(-1j)
+    return [[(c if i == j else Sym.of(0)) + (mi * s * Sym.of(complex(P[i, j])) if P[i, j] != 0 else Sym.of(0)) for j in range(d)] for i in range(d)]
+
+
+def s_rx(phi):
+    """RX(phi) for a Lin angle phi"""
+    return s_exp_pauli("X", phi * Fr(1, 2))
+
+
+def s_diag(entries):
+    d = len(entries)
+    return [[entries[i] if i == j else Sym.of(0) for j in range(d)] for i in range(d)]
+
+
+OBLIG = []
+B_ITEMS = []
+
+
+def g_circ(gates):
+    return "[" + ";\n  ".join(g_gate(w, S) for w, S in gates) + "]"
+
+
+def add_cols_ok(label, route, n, gates, ows, M, cols):
+    name = f"ob_{len(OBLIG)}"
+    stmt = f"cols_ok {CFG.N // 2}%Z {n}%nat\n  {g_circ(gates)}\n  {g_nats(ows)}\n  {g_mat(M)}\n  {g_nats(cols)} = true"
+    OBLIG.append({"name": name, "stmt": stmt, "label": label, "route": route, "kind": "cols_ok", "hz": CFG.N // 2, "D": CFG.D, "n": n, "n_gates": len(gates), "nvars": CFG.nvars})
+
+
+def add_circ_eq(label, route, n, gates, ref_gates, cols):
+    name = f"ob_{len(OBLIG)}"
+    stmt = f"circ_cols_eq {CFG.N // 2}%Z {n}%nat\n  {g_circ(gates)}\n  {g_circ(ref_gates)}\n  {g_nats(cols)} = true"
+    OBLIG.append({"name": name, "stmt": stmt, "label": label, "route": route, "kind": "circ_cols_eq", "hz": CFG.N // 2, "D": CFG.D, "n": n, "n_gates": len(gates), "nvars": CFG.nvars})
+
+
+def impl_routes_ops(op):
+    """[(route, ops)]: legacy decomposition() and each registered (measurement-free) rule"""
+    out = []
+    try:
+        out.append(("decomposition()", list(op.decomposition())))
+    except Exception:
+        pass
+    try:
+        for nm, ops in run_rule_ops(op):
+            if any("Measure" in o.name or type(o).__name__ in ("MidMeasureMP", "Conditional", "Allocate", "Deallocate") for o in ops):
+                continue
+            out.append(("rule:" + nm, ops))
+    except Exception as e:
+        B_ITEMS.append({"label": repr(op)[:60], "route": "rules", "status": "error", "detail": f"{type(e).__name__}: {str(e)[:100]}"})
+    return out
+
+
+def b_case(label, nvars, build, cfgs=((8, 8), (8, 16), (16, 16))):
+    """build() -> (op, wo, ref) with ref = ("matrix", ows, M, cols) or ("circuit", ref_gates, cols); executed under each ring
+    configuration until the extraction succeeds"""
+    install_patches()
+    last = ""
+    for (N, D) in cfgs:
+        set_cfg(N, D, nvars)
+        try:
+            op, wo, ref = build()
+            n = len(wo)
+            rts = impl_routes_ops(op)
+            done = 0
+            for route, ops in rts:
+                extra = [w for o in ops for w in o.wires if w not in wo]
+                if extra:
+                    B_ITEMS.append({"label": label, "route": route, "status": "skipped", "detail": "uses extra wires"})
+                    continue
+                gates = sym_gates(ops, wo, RNG_B)
+                if ref[0] == "matrix":
+                    add_cols_ok(label, route, n, gates, ref[1], ref[2], ref[3])
+                elif ref[0] == "block":
+                    add_cols_ok(label, route, n, gates + [([0], ref[1])], list(range(n)), ref[2], ref[3])
+                else:
+                    add_circ_eq(label, route, n, gates, ref[1], ref[2])
+                B_ITEMS.append({"label": label, "route": route, "status": "ok", "cfg": [N, D], "n": n, "n_gates": len(gates), "nvars": nvars, "lemma": OBLIG[-1]["name"]})
+                done += 1
+            return done
+        except NotExtractable as e:
+            last = last or f"[N={N},D={D}] {e}"
+            # drop obligations of a half-finished configuration
+            while OBLIG and OBLIG[-1]["label"] == label:
+                OBLIG.pop()
+            while B_ITEMS and B_ITEMS[-1]["label"] == label:
+                B_ITEMS.pop()
+            continue
+        except Exception as e:
+            B_ITEMS.append({"label": label, "route": "-", "status": "error", "detail": f"{type(e).__name__}: {str(e)[:200]}"})
+            return 0
+    B_ITEMS.append({"label": label, "route": "-", "status": "notex", "detail": last[:300]})
+    return 0
+
+
+RNG_B = random.Random(7)
+
+
+def var(j):
+    return var_array(j)
+
+
+def all_cols(n):
+    return list(range(2 ** n))
+
+
+def part_b(rng, tier):
+    global RNG_B
+    RNG_B = random.Random(rng.random())
+    thorough = tier != "quick"
+    # ---- Permute (no parameters): against the permutation matrix
+    for _ in range(3 if not thorough else 10):
+        n = rng.randint(2, 4)
+        wires = list(range(n)); perm = wires[:]; rng.shuffle(perm)
+        def build(wires=wires, perm=perm, n=n):
+            ref = np.zeros((2 ** n, 2 ** n))
+            for col in range(2 ** n):
+                bits = bits_of(col, n)
+                ref[int("".join(str(bits[wires.index(perm[k])]) for k in range(n)), 2), col] = 1
+            return qp.Permute(perm, wires=wires), wires, ("matrix", list(range(n)), s_const(ref), all_cols(n))
+        b_case(f"Permute{perm}", 0, build)
+    # ---- FlipSign
+    for _ in range(3 if not thorough else 8):
+        n = rng.randint(1, 4); s = rng.randrange(2 ** n)
+        def build(n=n, s=s):
+            ref = np.eye(2 ** n); ref[s, s] = -1
+            return qp.FlipSign(bits_of(s, n), wires=list(range(n))), list(range(n)), ("matrix", list(range(n)), s_const(ref), all_cols(n))
+        b_case(f"FlipSign[{n},{s}]", 0, build)
+    # ---- Select with formal rotation angles: block-diagonal matrix sum_k |k><k| (x) U_k
+    for trial in range(3 if not thorough else 8):
+        c = rng.randint(1, 2); K = rng.randint(2, 2 ** c)
+        kinds = [rng.choice(["RX", "RY", "RZ", "X", "H", "PS"]) for _ in range(K)]
+        nv = sum(1 for k in kinds if k in ("RX", "RY", "RZ", "PS"))
+        def build(c=c, K=K, kinds=kinds):
+            ops, j = [], 0
+            for k in kinds:
+                if k in ("RX", "RY", "RZ"):
+                    ops.append(getattr(qp, k)(var(j), wires=c)); j += 1
+                elif k == "PS":
+                    ops.append(qp.PhaseShift(var(j), wires=c)); j += 1
+                else:
+                    ops.append(qp.X(c) if k == "X" else qp.Hadamard(c))
+            op = qp.Select(ops, control=list(range(c)))
+            n = c + 1
+            M = s_ident(2 ** n)
+            for k, o in enumerate(ops):
+                S = op_matrix_sym(o)
+                for a in range(2):
+                    for b in range(2):
+                        M[2 * k + a][2 * k + b] = S[a][b]
+            return op, list(range(n)), ("matrix", list(range(n)), M, all_cols(n))
+        b_case(f"Select[c={c},{'/'.join(kinds)}]", max(nv, 0), build)
+    # ---- QROM small tables: on the documented domain (target register |0>)
+    for trial in range(3 if not thorough else 8):
+        c = rng.randint(1, 2); b = rng.randint(1, 2); m = rng.randint(2 ** (c - 1) + (1 if c > 1 else 0), 2 ** c)
+        nw = rng.choice([0, b]); clean = rng.random() < 0.5
+        data = [[rng.randint(0, 1) for _ in range(b)] for _ in range(m)]
+        def build(c=c, b=b, m=m, nw=nw, clean=clean, data=data):
+            n = c + b + nw
+            wo = list(range(n))
+            op = qp.QROM(data, control_wires=wo[:c], target_wires=wo[c:c + b], work_wires=wo[c + b:] or None, clean=clean)
+            ref = np.zeros((2 ** n, 2 ** n)); cols = []
+            for col in range(2 ** n):
+                bits = bits_of(col, n); i = int("".join(map(str, bits[:c])), 2); out = list(bits)
+                if i < m:
+                    for j in range(b):
+                        out[c + j] ^= data[i][j]
+                    if not any(bits[c:c + b]) and (clean or not any(bits[c + b:])):
+                        cols.append(col)
+                ref[int("".join(map(str, out)), 2), col] = 1
+            if not clean and nw:
+                raise NotExtractable("clean=False with work wires: work register not specified")
+            return op, wo, ("matrix", wo, s_const(ref), cols)
+        b_case(f"QROM[c={c},b={b},m={m},work={nw},clean={clean}]", 0, build)
+    # ---- Reflection about U|0> with formal angle alpha: U D(alpha) U^dagger, D = -I + (1 - e^{i alpha}) |0><0|
+    for trial in range(3 if not thorough else 8):
+        n = rng.randint(1, 3)
+        kinds = [rng.choice(["H", "X", "S", "RYp"]) for _ in range(n)]
+        with_cnot = n >= 2 and rng.random() < 0.5
+        sub = n >= 2 and rng.random() < 0.4
+        def build(n=n, kinds=kinds, with_cnot=with_cnot, sub=sub):
+            alpha = Lin.var(0)
+            us = []
+            for w, k in enumerate(kinds):
+                us.append({"H": qp.Hadamard(w), "X": qp.X(w), "S": qp.S(w), "RYp": qp.RY(math.pi / 2, w)}[k])
+            if with_cnot:
+                us.append(qp.CNOT([0, 1]))
+            U = qp.prod(*us[::-1]) if len(us) > 1 else us[0]
+            rw = [0] if sub else list(range(n))
+            op = qp.Reflection(U, var(0), reflection_wires=rw) if sub else qp.Reflection(U, var(0))
+            wo = list(range(n))
+            ug = [([wo.index(x) for x in o.wires], op_matrix_sym(o)) for o in us]
+            udg = [(w, s_adj(S)) for w, S in ug[::-1]]
+            e = (alpha * 1j).exp()
+            k = len(rw)
+            D = s_diag([(Sym.of(-1) + (Sym.of(1) - e)) if i == 0 else Sym.of(-1) for i in range(2 ** k)])
+            return op, wo, ("circuit", udg + [([wo.index(x) for x in rw], D)] + ug, all_cols(n))
+        b_case(f"Reflection[{''.join(kinds)},cnot={with_cnot},sub={sub}]", 1, build)
+    # ---- GroverOperator n <= 4 : 2|s><s| - I
+    for n in ((2, 3) if not thorough else (2, 3, 4)):
+        def build(n=n):
+            ref = 2 * np.ones((2 ** n, 2 ** n)) / 2 ** n - np.eye(2 ** n)
+            return qp.GroverOperator(wires=list(range(n))), list(range(n)), ("matrix", list(range(n)), s_const(ref), all_cols(n))
+        b_case(f"GroverOperator[{n}]", 0, build)
+    # ---- ControlledSequence of RX(theta): product of C_i(RX(2^(n-1-i) theta))
+    for nc in ((1, 2, 3) if not thorough else (1, 2, 3, 4)):
+        def build(nc=nc):
+            op = qp.ControlledSequence(qp.RX(var(0), wires=nc), control=list(range(nc)))
+            refg = [([i, nc], s_ctrl(s_rx(Lin.var(0) * (2 ** (nc - 1 - i))), [1])) for i in range(nc)]
+            return op, list(range(nc + 1)), ("circuit", refg, all_cols(nc + 1))
+        b_case(f"ControlledSequence[RX,{nc}]", 1, build, cfgs=((8, 8), (8, 16), (8, 32)))
+    # ---- QFT / AQFT for n <= 3 (entries in Q(zeta_8))
+    for n in (1, 2, 3):
+        def build(n=n):
+            return qp.QFT(wires=list(range(n))), list(range(n)), ("matrix", list(range(n)), s_const(dft(n)), all_cols(n))
+        b_case(f"QFT[{n}]", 0, build)
+    for n, order in ((2, 1), (3, 1), (3, 2)):
+        def build(n=n, order=order):
+            return qp.AQFT(order=order, wires=list(range(n))), list(range(n)), ("matrix", list(range(n)), s_const(aqft_ref(n, order)), all_cols(n))
+        b_case(f"AQFT[{n},order={order}]", 0, build)
+    # ---- time evolution with formal time t (rational coefficients): product formula built here from exp(-i c t P) factors
+    ham_sets = [([Fr(1), Fr(1, 2)], ["XI", "ZZ"]), ([Fr(1, 2), Fr(-1), Fr(3, 2)], ["X", "Z", "Y"]), ([Fr(1), Fr(-1, 2)], ["XX", "YY"]),
+                ([Fr(1, 2), Fr(1), Fr(1, 2)], ["ZI", "XX", "IY"])]
+    def ham_op(coeffs, words):
+        ops = []
+        for w in words:
+            fs = [getattr(qp, ch)(i) for i, ch in enumerate(w) if ch != "I"]
+            ops.append(qp.prod(*fs) if len(fs) > 1 else fs[0])
+        return ops
+    for coeffs, words in (ham_sets if thorough else ham_sets[:3]):
+        nt = len(words[0]); wo = list(range(nt))
+        fl = [float(c) for c in coeffs]
+        for order, nst in (((1, 1), (2, 1), (1, 2)) if not thorough else ((1, 1), (2, 1), (1, 2), (2, 2))):
+            def build(coeffs=coeffs, words=words, order=order, nst=nst, fl=fl, nt=nt, wo=wo):
+                t = Lin.var(0)
+                H = qp.dot(fl, ham_op(coeffs, words))
+                op = qp.TrotterProduct(H, var(0), n=nst, order=order)
+                # [S_m(t/n)]^n with S_1(x) = prod_j e^{i x O_j} (matrix product, j=0 leftmost => applied last)
+                def S1(x, idx):
+                    return [(wo, s_exp_pauli(words[j], t * (-coeffs[j] * x))) for j in idx]      # exp(+i c x t P) = exp(-i (-c x t) P)
+                J = list(range(len(words)))
+                if order == 1:
+                    step = S1(Fr(1, nst), J[::-1])
+                else:
+                    # S_2 = prod_{j=0..N} e^{i t/2 O_j} . prod_{j=N..0} e^{i t/2 O_j}: rightmost factor (j=0 of the second product) acts first
+                    step = S1(Fr(1, 2 * nst), J) + S1(Fr(1, 2 * nst), J[::-1])
+                return op, wo, ("circuit", step * nst, all_cols(nt))
+            b_case(f"TrotterProduct[{words},order={order},n={nst}]", 1, build, cfgs=((8, 8), (8, 16), (8, 32)))
+        for nst in (1, 2):
+            def build(coeffs=coeffs, words=words, nst=nst, fl=fl, nt=nt, wo=wo):
+                t = Lin.var(0)
+                H = qp.Hamiltonian(fl, ham_op(coeffs, words))
+                op = qp.ApproxTimeEvolution(H, var(0), nst)
+                step = [(wo, s_exp_pauli(words[j], t * (coeffs[j] * Fr(1, nst)))) for j in range(len(words))]
+                return op, wo, ("circuit", step * nst, all_cols(nt))
+            b_case(f"ApproxTimeEvolution[{words},n={nst}]", 1, build, cfgs=((8, 8), (8, 16), (8, 32)))
+    # commuting Hamiltonians: exp(-i H t) = product of the factors in any order
+    for coeffs, words in [([Fr(1), Fr(1, 2)], ["XX", "YY"]), ([Fr(1, 2), Fr(-1), Fr(1)], ["ZI", "IZ", "ZZ"])]:
+        nt = len(words[0]); wo = list(range(nt)); fl = [float(c) for c in coeffs]
+        def build(coeffs=coeffs, words=words, fl=fl, nt=nt, wo=wo):
+            t = Lin.var(0)
+            op = qp.CommutingEvolution(qp.Hamiltonian(fl, ham_op(coeffs, words)), var(0))
+            refg = [(wo, s_exp_pauli(words[j], t * coeffs[j])) for j in range(len(words))][::-1]      # deliberately the opposite order
+            return op, wo, ("circuit", refg, all_cols(nt))
+        b_case(f"CommutingEvolution[{words}]", 1, build, cfgs=((8, 8), (8, 16), (8, 32)))
+    # ---- PrepSelPrep / Qubitization, 2-term Pauli sums with Pythagorean coefficient vectors: block encoding statement
+    #      (<0| (x) I) W (|0> (x) I) = H / lambda, as  P0 . W  =  |0><0| (x) H/lambda  on the columns with control = 0
+    for (p, q, r), words, signs in [((3, 4, 5), ["X", "Z"], (1, 1)), ((4, 3, 5), ["ZI", "XY"], (1, -1)), ((5, 12, 13), ["Y", "X"], (-1, 1))]:
+        for which in ("PrepSelPrep", "Qubitization"):
+            def build(p=p, q=q, r=r, words=words, signs=signs, which=which):
+                nt = len(words[0])
+                coeffs = [signs[0] * Fr(p * p, r * r), signs[1] * Fr(q * q, r * r)]          # lambda = 1, sqrt(|c|) rational
+                opsH = []
+                for w in words:
+                    fs = [getattr(qp, ch)(1 + i) for i, ch in enumerate(w) if ch != "I"]
+                    opsH.append(qp.prod(*fs) if len(fs) > 1 else fs[0])
+                H = qp.dot([float(c) for c in coeffs], opsH)
+                op = (qp.PrepSelPrep if which == "PrepSelPrep" else qp.Qubitization)(H, control=[0])
+                wo = list(range(1 + nt))
+                Hm = sum(float(c) * pauli_word_mat(w) for c, w in zip(coeffs, words))
+                proj = s_const(np.diag([1.0, 0.0]))
+                Mfull = s_const(np.kron(np.diag([1.0, 0.0]), Hm))
+                return op, wo, ("block", proj, Mfull, [cidx for cidx in range(2 ** (1 + nt)) if cidx < 2 ** nt])
+            b_case(f"{which}[{p},{q},{r};{words}]", 0, build)
+
+
+# MAIN
+CHECKS = [("Select", chk_select, 14), ("QROM", chk_qrom, 14), ("Permute", chk_permute, 12), ("FlipSign", chk_flipsign, 10),
+          ("ControlledSequence", chk_ctrlseq, 10), ("QFT", chk_qft, 6), ("AQFT", chk_aqft, 8), ("Reflection", chk_reflection, 14),
+          ("GroverOperator", chk_grover, 8), ("AmplitudeAmplification", chk_ampamp, 14), ("QuantumPhaseEstimation", chk_qpe, 12),
+          ("QuantumMonteCarlo", chk_qmc, 8), ("PrepSelPrep/Qubitization", chk_psp, 16), ("BlockEncode", chk_blockencode, 12),
+          ("FABLE", chk_fable, 12), ("QSVT", chk_qsvt, 20), ("GQSP", chk_gqsp, 12), ("TrotterProduct", chk_trotter, 6),
+          ("ApproxTimeEvolution", chk_ate, 10), ("CommutingEvolution", chk_commuting, 8)]
+
+
+def corpus(rng, tier):
+    """hand-picked / regression cases first"""
+    # regression: the registered FABLE rule used to crash when >= 2 CNOTs were pending at the end (repaired in /repo)
+    chk_fable(rng, tier, fixed=([[0.0, 0.3], [0.3, 0.0]], 0))
+    chk_fable(rng, tier, fixed=([[0.5, 0.5], [0.5, 0.5]], 0.01))
+    chk_fable(rng, tier, fixed=([[0.1, 0.2], [0.3, -0.2]], 0))            # documentation example
+    # documentation examples
+    op = qp.Select([qp.X(2), qp.X(3), qp.Y(2), qp.SWAP([2, 3])], control=[0, 1])
+    ref = np.eye(16, dtype=complex)
+    for k, m in enumerate([embed(PX, [0], 2), embed(PX, [1], 2), embed(PY, [0], 2), SWAP_M]):
+        ref[4 * k:4 * k + 4, 4 * k:4 * k + 4] = m
+    record("Select", {"doc_example": True}, routes(op, [0, 1, 2, 3]), ref)
+    op = qp.Select([qp.X(2), qp.X(3), qp.SWAP([2, 3])], control=[0, 1], partial=True)
+    ref2 = np.eye(16, dtype=complex)
+    for k, m in enumerate([embed(PX, [0], 2), embed(PX, [1], 2), SWAP_M]):
+        ref2[4 * k:4 * k + 4, 4 * k:4 * k + 4] = m
+    record("Select", {"doc_example": "partial"}, routes(op, [0, 1, 2, 3]), ref2, cols=list(range(12)))
+    H = qp.dot([0.3, -0.1], [qp.X(2), qp.Z(2)])
+    record_fn("PrepSelPrep", {"doc_example": True}, routes(qp.PrepSelPrep(H, control=[0, 1]), [0, 1, 2]),
+              lambda M: np.abs(M[:2, :2] - (0.3 * PX - 0.1 * PZ) / 0.4).max())
+    A = np.array([[0.1, 0.2], [0.3, 0.4]])
+    M = np.asarray(qp.matrix(qp.BlockEncode(A, wires=range(2))))
+    record_scalar("BlockEncode", {"doc_example": True}, "block", float(np.abs(M[:2, :2] - A).max()), 1e-12)
+
+
+def main():
+    req = json.load(sys.stdin)
+    tier, seed, outdir = req["tier"], req["seed"], req["outdir"]
+    parts = req.get("parts", "ABC")
+    out = {"wall": {}}
+    t0 = time.time()
+    if "C" in parts:
+        rng = random.Random(seed * 7919 + 1)
+        corpus(rng, tier)
+        mult = 1 if tier == "quick" else 8
+        for name, f, cnt in CHECKS:
+            t1 = time.time()
+            for _ in range(cnt * mult):
+                try:
+                    f(rng, tier)
+                except Exception as e:
+                    import traceback
+                    RESULTS.append({"template": name, "desc": {"harness_exception": traceback.format_exc()[-600:]}, "routes": {"harness": {"error": f"{type(e).__name__}: {str(e)[:200]}"}},
+                                    "ok": False, "tol": 0, "bad": {"harness": {"error": f"{type(e).__name__}: {str(e)[:200]}"}}})
+            out["wall"][name] = round(time.time() - t1, 2)
+        out["results"] = RESULTS
+        out["counts"] = COUNTS
+        out["solver_fails"] = SOLVER_FAILS
+    if "A" in parts:
+        t1 = time.time()
+        out["traces"] = traces(random.Random(seed * 104729 + 2), tier)
+        out["wall"]["traces"] = round(time.time() - t1, 2)
+    if "B" in parts:
+        t1 = time.time()
+        part_b(random.Random(seed * 1299709 + 3), tier)
+        json.dump(OBLIG, open(outdir + "/obligations.json", "w"))
+        out["b_items"] = B_ITEMS
+        out["n_oblig"] = len(OBLIG)
+        out["wall"]["obligations"] = round(time.time() - t1, 2)
+    out["wall"]["total"] = round(time.time() - t0, 2)
+    print(json.dumps(out, default=str))
+
+
+if __name__ == "__main__":
+    main()
